@@ -82,9 +82,10 @@ Watch == { [c |-> "watch", perm |-> p, wtype |-> t, nkeys |-> k] : p \in PermSet
 \* syscall rules laid out like a file watch (path=/dir= then perm=, a key): only the exact shape of a watch
 \* (always,exit, =, path before perm) may be listed as -w; every other one has to stay a syscall rule
 \* spell: how the name is written - as it is, with a trailing slash, a doubled slash, a dot component (-w cleans its argument)
+\* nkeys = 3: one key, given as the filter -F key=K where K contains a comma (-k would read two keys there)
 WLike == { [c |-> "wlike", action |-> a, pf |-> f, pop |-> o, perm |-> p, permv |-> v, nkeys |-> k, sc |-> s, spell |-> w] :
              a \in Actions, f \in { "path", "dir" }, o \in { "=", "!=" }, p \in { "none", "after", "before" },
-             v \in { "r", "wa", "rwxa" }, k \in 0..2, s \in { "none", "all", "one" }, w \in { "clean", "slash", "double", "dot" } }
+             v \in { "r", "wa", "rwxa" }, k \in 0..3, s \in { "none", "all", "one" }, w \in { "clean", "slash", "double", "dot" } }
 
 NFields == { [c |-> "nfields", n |-> n, key |-> k, cmp |-> m] : n \in { 0, 1, 2, 31, 62, 63, 64, 65, 66, 70 }, k \in BOOLEAN,
              m \in { "none", "last", "last2", "first", "all" } }
